@@ -423,6 +423,17 @@ func init() {
 			i.protectCached(v)
 			return v
 		},
+		"Stub": func(fr *frame, a []value) value {
+			// Stub(name, fn): for the rest of this path, calls to the function
+			// whose SSA name is name are served by the harness function fn
+			// (environment = nondeterministic stubs; listed in the evidence).
+			if fr.i.p.stubs == nil {
+				fr.i.p.stubs = map[string]value{}
+			}
+			fr.i.p.stubs[goString(a[0])] = a[1].(iface).v
+			fr.i.stubbed[goString(a[0])] = true
+			return nil
+		},
 		"Param": func(fr *frame, a []value) value {
 			if v, ok := fr.i.cfg.Params[goString(a[0])]; ok {
 				return v
